@@ -93,6 +93,9 @@ def s_index(I, w, frame, site, fn, args, term):
             return None
         I.obligation(w, frame, site, 'index', [le(Lin.c(0), r[1]), lt(r[1], ln)],
                      f"index {r[1].pretty()} < len {ln.pretty()}")
+        split = _small_table_split(I, w, base, start, r[1], ln)
+        if split is not None:
+            return [(wk, ('ref', base.ext(('i', Lin.c(k))))) for k, wk in split]
         return [(w, ('ref', base.ext(('i', start + r[1]))))]
     b = _range_bounds(I, w, rty, r, ln)
     if b is None:
@@ -105,6 +108,64 @@ def s_index(I, w, frame, site, fn, args, term):
     if sh:
         sh(I, w, frame, site, base, start + lo, start + hi)      # absolute window [from, to) of the object `base`
     return [(w, ('slice', base, start + lo, hi - lo))]
+
+
+def _small_table_split(I, w, base, start, idx, ln):
+    """a constant table of at most 8 non-integer entries (`[Option<usize>; 6]`) indexed by a symbolic value: one world per
+    entry the index can denote, [(k, world with index == k)]; None when this is not such a table"""
+    if idx.is_const() or start != Lin.c(0) or base.path or base.root[0] != 'K':
+        return None
+    try:
+        bv = I.read(w, base)
+    except AI.AnalysisError:
+        return None
+    if bv[0] != 'arr' or bv[2][0] != 'elems' or not (2 <= bv[1] <= 8) or all(e[0] == 'int' for e in bv[2][1]):
+        return None
+    out = []
+    for k in range(bv[1]):
+        wk = w.fork()
+        if I.assume(wk, ('cmp', 'eq', idx, Lin.c(k)), True):
+            out.append((k, wk))
+    return out
+
+
+def s_slice_get(I, w, frame, site, fn, args, term):
+    # `slice.get(i)` / `slice.get(a..b)`: the checked form of indexing - None exactly where `slice[..]` would panic
+    s, r = args[0], args[1]
+    rty = term['arg_tys'][1]
+    if s[0] != 'slice':
+        return None
+    base, start, ln = s[1], s[2], s[3]
+    if rty['k'] == 'int':
+        if r[0] != 'int':
+            return None
+        split = _small_table_split(I, w, base, start, r[1], ln)
+        if split is not None:
+            out = [(wk, ('enum', ((1, (('ref', base.ext(('i', Lin.c(k)))),)),))) for k, wk in split]
+            w2 = w.fork()
+            if I.assume(w2, ('cmp', 'le', ln, r[1]), True):
+                out.append((w2, ('enum', ((0, ()),))))
+            return out
+        lo, hi, some = r[1], r[1] + 1, ('ref', base.ext(('i', start + r[1])))
+    else:
+        b = _range_bounds(I, w, rty, r, ln)
+        if b is None:
+            return None
+        lo, hi = b
+        some = ('slice', base, start + lo, hi - lo)
+    out = []
+    w1 = w.fork()
+    if I.assume(w1, ('cmp', 'le', lo, hi), True) and I.assume(w1, ('cmp', 'le', hi, ln), True):
+        if rty['k'] != 'int':
+            sh = I.cfg.get('slice_hook')
+            if sh:
+                sh(I, w1, frame, site, base, start + lo, start + hi)
+        out.append((w1, ('enum', ((1, (some,)),))))
+    for bad in (('cmp', 'lt', ln, hi), ('cmp', 'lt', hi, lo)):
+        w2 = w.fork()
+        if I.assume(w2, bad, True):
+            out.append((w2, ('enum', ((0, ()),))))
+    return out
 
 
 def s_copy_from_slice(I, w, frame, site, fn, args, term):
@@ -183,6 +244,45 @@ def s_split_first(I, w, frame, site, fn, args, term):
     if I.assume(w2, ('cmp', 'lt', Lin.c(0), s[3]), True):
         out.append((w2, ('enum', ((1, (('agg', (('ref', s[1].ext(('i', s[2]))), ('slice', s[1], s[2] + 1, s[3] - 1))),)),))))
     return out
+
+
+def _chunk_len(ty):
+    """N of the first `&[T; N]` found in a (nested) type description"""
+    if not isinstance(ty, dict):
+        return None
+    if ty.get('k') == 'ref' and isinstance(ty.get('to'), dict) and ty['to'].get('k') == 'array':
+        return ty['to'].get('len')
+    for sub in list(ty.get('args') or []) + list(ty.get('of') or [] if isinstance(ty.get('of'), list) else []):
+        n = _chunk_len(sub)
+        if n is not None:
+            return n
+    return None
+
+
+def s_first_chunk(I, w, frame, site, fn, args, term, with_rest=False):
+    # `slice.first_chunk::<N>()` / `split_first_chunk::<N>()`: Some(&[T; N] over the first N elements [, the rest]) when len >= N.
+    # The array behind the reference is an anonymous object holding "the bytes of that window" (as `try_into` of the window gives)
+    s = args[0]
+    n = _chunk_len(term['dest_ty'])
+    if s[0] != 'slice' or n is None:
+        return None
+    out = []
+    w1 = w.fork()
+    if I.assume(w1, ('cmp', 'lt', s[3], Lin.c(n)), True):
+        out.append((w1, ('enum', ((0, ()),))))
+    w2 = w.fork()
+    if I.assume(w2, ('cmp', 'le', Lin.c(n), s[3]), True):
+        root = ('O', Obj.fresh())
+        w2.mem[root] = ('arr', n, ('bytes_of', s[1], s[2]))
+        w2.names[root] = f"{w2.name_of(s[1].root)}[{s[2].pretty()}..+{n}]"
+        chunk = ('ref', Loc(root))
+        some = ('agg', (chunk, ('slice', s[1], s[2] + n, s[3] - n))) if with_rest else chunk
+        out.append((w2, ('enum', ((1, (some,)),))))
+    return out
+
+
+def s_split_first_chunk(I, w, frame, site, fn, args, term):
+    return s_first_chunk(I, w, frame, site, fn, args, term, with_rest=True)
 
 
 def s_iter(I, w, frame, site, fn, args, term):
@@ -848,13 +948,18 @@ TABLE = {
     'core::slice::index::index': s_index,
     'core::slice::index::index_mut': s_index,
     'core::slice::copy_from_slice': s_copy_from_slice,
+    'core::slice::get': s_slice_get,
+    'core::slice::get_mut': s_slice_get,
     'core::slice::last': s_last,
     'core::slice::first': s_first,
     'core::slice::is_empty': s_slice_is_empty,
     'core::slice::split_at': s_split_at,
     'core::slice::split_at_mut': s_split_at,
     'core::slice::split_first': s_split_first,
+    'core::slice::first_chunk': s_first_chunk,
+    'core::slice::split_first_chunk': s_split_first_chunk,
     'core::slice::iter': s_iter,
+    'core::slice::iter::into_iter': s_iter,          # `for x in slice` (IntoIterator for &[T])
     "<&'a std::vec::Vec as std::iter::IntoIterator>::into_iter": s_iter,
     '<I as std::iter::IntoIterator>::into_iter': s_identity,
     '<std::slice::Iter as std::iter::Iterator>::next': s_iter_next,
